@@ -113,6 +113,7 @@ def make_recorder(trace):
         def __init__(self):
             real.__init__(self)
             self._in_handle = 0
+            self._nested = 0          # gs_error / st_error fall back to isa_error internally (fix 4741cca): not a driver call
 
         def _msg(self, m):
             return hx('' if self._in_handle else m)
@@ -148,16 +149,25 @@ def make_recorder(trace):
             real.add_ele(self, map_node)
 
         def isa_error(self, err_cde, err_str):
-            trace.append(','.join(['i', err_cde, self._msg(err_str)]))
+            if not self._nested:
+                trace.append(','.join(['i', err_cde, self._msg(err_str)]))
             real.isa_error(self, err_cde, err_str)
 
         def gs_error(self, err_cde, err_str):
             trace.append(','.join(['g', err_cde, self._msg(err_str)]))
-            real.gs_error(self, err_cde, err_str)
+            self._nested += 1
+            try:
+                real.gs_error(self, err_cde, err_str)
+            finally:
+                self._nested -= 1
 
         def st_error(self, err_cde, err_str):
             trace.append(','.join(['t', err_cde, self._msg(err_str)]))
-            real.st_error(self, err_cde, err_str)
+            self._nested += 1
+            try:
+                real.st_error(self, err_cde, err_str)
+            finally:
+                self._nested -= 1
 
         def seg_error(self, err_cde, err_str, err_value=None, src_line=None):
             trace.append(','.join(['s', err_cde, self._msg(err_str), opt(hx, err_value), opt(str, src_line)]))
